@@ -20,6 +20,13 @@ class Deadlock(RuntimeError):
     pass
 
 
+class SpinDetected(RuntimeError):
+    pass
+
+
+SPIN_LIMIT = 20000  # loop iterations without any trace event and without a clock advance
+
+
 class _VSelector:
     def __init__(self, real, loop):
         self._real = real
@@ -89,6 +96,8 @@ class VirtualLoop(asyncio.SelectorEventLoop):
         self._quiesce_waiters = []
         self._adv = None
         self._clock_resolution = 1e-9
+        self.spin_trace = None
+        self._spin_n = self._spin_t = self._spin_at = 0
 
     def time(self):
         return self.vtime
@@ -105,6 +114,14 @@ class VirtualLoop(asyncio.SelectorEventLoop):
 
     def _run_once(self):
         self.steps += 1
+        tr = self.spin_trace
+        if tr is not None:
+            n = len(tr.events)
+            if n != self._spin_n or self.vtime != self._spin_t:
+                self._spin_n, self._spin_t, self._spin_at = n, self.vtime, self.steps
+            elif self.steps - self._spin_at > SPIN_LIMIT:
+                self.spin_trace = None
+                raise SpinDetected("%d loop iterations without an event or clock advance" % (self.steps - self._spin_at))
         super()._run_once()
 
     def run_in_executor(self, executor, func, *args):
